@@ -292,6 +292,32 @@ Section Machine.
     split; [reflexivity|]. eapply nth_upd_eq; eauto.
   Qed.
 
+  (* ---------- a refusal is caused by a call with the same token ---------- *)
+  Lemma calls_toks : forall progs w, In w (calls progs) -> In (snd w) (all_toks progs).
+  Proof.
+    intros progs w H. unfold calls in H. apply in_flat_map in H. destruct H as (o & Ho & Hw).
+    destruct o as [cid tok m|del r]; cbn in Hw; [|contradiction].
+    destruct Hw as [<-|[]]. apply (op_toks_in progs (Call cid tok m)); [auto|left; reflexivity].
+  Qed.
+
+  (* if the hash tells the tokens in play apart, the entry that makes LoadOrStore refuse a call was
+     registered by a call of the programs with the very same token: two different tokens never
+     stand in each other's way *)
+  Theorem refused_same_token : forall progs sched t th cid tok m w,
+    hash_inj_on hash (all_toks progs) ->
+    let c := run hash progs sched in
+    nth_error (thr c) t = Some th -> tcur th = Running (Call cid tok m) L0 ->
+    tget (hash tok) (tbl (sh c)) = Some w -> snd w = tok /\ In w (calls progs).
+  Proof.
+    intros progs sched t th cid tok m w Hinj c Hth Hc Hg.
+    pose proof (inv1_run progs sched) as HI. fold c in HI.
+    apply tget_In in Hg. destruct (i_tbl progs c HI _ _ Hg) as [Hk Hw].
+    destruct (i_thr progs c HI t th Hth) as [Hcur _]. rewrite Hc in Hcur. destruct Hcur as [Ho _].
+    split; [|exact Hw].
+    apply Hinj; [apply calls_toks; exact Hw| |symmetry; exact Hk].
+    apply (op_toks_in progs (Call cid tok m)); [exact Ho|left; reflexivity].
+  Qed.
+
   (* ---------- the deferred removal ---------- *)
   Lemma NoDup_map_inj : forall (A B : Type) (f : A -> B) l a b,
     NoDup (map f l) -> In a l -> In b l -> f a = f b -> a = b.
